@@ -32,13 +32,23 @@ def byte_col_to_utf16(line_text, byte_col):
 
 def gen_doc(rng):
     r = rng
-    kind = r.weighted([(5, "prog"), (3, "mutated"), (2, "nonascii_safe"), (1, "nonascii_code"), (1, "empty"), (1, "tests")])
+    kind = r.weighted([(5, "prog"), (3, "mutated"), (2, "nonascii_safe"), (1, "nonascii_code"), (1, "empty"), (1, "tests"), (2, "imports")])
     defs, main = gen_prog(r.fork("p"), size=r.randint(3, 10), tag=f"d{r.randint(0, 9)}")
     text = defs + "\n" + "\n".join(main) + "\n"
     if kind == "empty":
         return r.choice(["", "\n", "   ", "// only a comment"]), kind
     if kind == "tests":
         return text + "test doc_test { assert(1 == 1) }\n", kind
+    if kind == "imports":
+        # the scratch world holds lib_ok.gdn (clean) and lib_bad.gdn (has errors of its own)
+        imps = []
+        for _ in range(r.randint(1, 3)):
+            imps.append(r.choice(['import "./lib_ok.gdn" as lib', 'import "./lib_ok.gdn"', 'import "./no_such_file.gdn" as helpers',
+                                  'import "./no_such_file.gdn"', 'import "__nosuch.gdn"', 'import "__fs.gdn" as fs',
+                                  'import "./lib_bad.gdn" as bad', 'import "./sub"', 'import "./notutf8.gdn"',
+                                  'import "/nonexistent/abs.gdn"', 'import ""']))
+        use = r.choice(["", "lib::helper(1)\n", "println(no_such_var)\n", "helpers::x()\n"])
+        return "\n".join(imps) + "\n\n" + use + (text if r.chance(0.5) else "println(\"hello\")\n"), kind
     if kind == "mutated":
         b = list(text)
         for _ in range(r.randint(1, 4)):
@@ -146,7 +156,8 @@ def gen_lsp(rng, w_dir):
                 params["context"] = {"includeDeclaration": r.chance(0.5)}
             add({"jsonrpc": "2.0", "id": new_id(), "method": method, "params": params})
         elif k == "unknown_req":
-            add({"jsonrpc": "2.0", "id": new_id(), "method": r.choice(["workspace/symbol", "textDocument/foldingRange", "nosuch/method", ""]), "params": {}})
+            add({"jsonrpc": "2.0", "id": new_id(), "method": r.choice(["workspace/symbol", "textDocument/foldingRange", "nosuch/method", "", "$/garden/ping", "$/setTrace",
+                                                                               "$/cancelRequest", "$/", "textDocument/didOpenX", "exit2", "Initialize"]), "params": {}})
         elif k == "unknown_notif":
             add({"jsonrpc": "2.0", "method": r.choice(["workspace/didChangeConfiguration", "$/setTrace", "nosuch/notify"]), "params": {}})
         elif k == "bad_params":
@@ -235,10 +246,12 @@ class C28:
             "repeats, missing and wrong-shaped params, unknown methods, response-like and cancel messages, shutdown/exit "
             "in and out of order; documents from the program generator, mutated, with non-ASCII text inside and outside "
             "strings) delivered to the REAL `garden lsp` process over framed pipes whole, in seeded chunks, with EOF at "
-            "an arbitrary byte, with malformed frames, or with stdout not drained until the end. evaluations = child "
+            "an arbitrary byte, with malformed frames (header-level: only liveness afterwards; body-level with a correct "
+            "Content-Length: everything else must still be served), or with stdout not drained until the end. Documents may "
+            "import files of the scratch world (present, absent, broken, a directory, not UTF-8) and built-in modules. evaluations = child "
             "processes (server runs + `garden check --json` reference runs). distinct_nontrivial = distinct (history hash, "
             "delivery mode) among runs in which at least one document was open while requests were served")
-    expected_probes = ["delivery:whole", "delivery:chunked", "delivery:eof_at_byte", "delivery:malformed_frame",
+    expected_probes = ["delivery:whole", "delivery:chunked", "delivery:eof_at_byte", "delivery:malformed_frame", "delivery:bad_body", "doc:imports",
                        "delivery:slow_consumer", "diagnostics_compared", "disk_fallback", "doc:nonascii_code",
                        "doc:mutated", "exit_after_shutdown", "exit_without_shutdown", "eof_without_exit"]
     real_components = ["the real garden binary: `garden lsp` (framing loop, handle_message, every handler, document store, "
@@ -257,7 +270,7 @@ class C28:
         shutil.rmtree(ctx.get("own_root") or ctx["dir"], ignore_errors=True)
 
     def gen_case(self, rng, tier, index):
-        delivery = rng.weighted([(4, "whole"), (3, "chunked"), (2, "eof_at_byte"), (2, "malformed_frame"), (1, "slow_consumer")])
+        delivery = rng.weighted([(4, "whole"), (3, "chunked"), (2, "eof_at_byte"), (2, "malformed_frame"), (2, "bad_body"), (1, "slow_consumer")])
         msgs = gen_lsp(rng.fork("msgs"), "@W@")
         return {"msgs": msgs, "delivery": delivery, "aux": rng.u64(), "token": f"{rng.u64():016x}"}
 
@@ -344,6 +357,15 @@ class C28:
                 b"content-length:2\r\n\r\n{}",
             ])
             data = b"".join(frames[:bad_at]) + bad + b"".join(frames[bad_at:])
+        elif case["delivery"] == "bad_body":
+            # a frame whose header is fine and whose body is not a JSON-RPC message: the stream stays in
+            # step (Content-Length delimits the body), so everything around it must be served as usual
+            at = r.randint(0, len(frames))
+            body = r.choice([b"{\"jsonrpc\":\"2.0\",\"id\":7,\"method\":\"textDocument/hov", b"{\"a\":", b"", b"not json!!",
+                             b"   ", b"\xff\xfe\x00", b"{\"jsonrpc\":\"2.0\",\"method\":\"exit\"", b"[1, 2", b"\"unterminated",
+                             b"{\"jsonrpc\": \"2.0\", \"id\": 1, \"method\": \"shutdown\"} trailing", b"nul\x00l"])
+            bad = b"Content-Length: " + str(len(body)).encode() + b"\r\n\r\n" + body
+            data = b"".join(frames[:at]) + bad + b"".join(frames[at:])
         return msgs, data, chunks, cut, bad_at, frames
 
     def check_reference(self, w, uri, text):
@@ -389,6 +411,8 @@ class C28:
         w = worldsim.World(root, case["token"])
         try:
             w.write("ondisk.gdn", "fun on_disk(a) { a + 1 }\non_disk(2)\n")
+            w.write("lib_ok.gdn", "public fun helper(x: Int): Int { x + 1 }\nfun private_helper() { 1 }\n")
+            w.write("lib_bad.gdn", "public fun broken(x: Int): String { x }\nfun oops( {\n")
             with open(os.path.join(w.dir, "notutf8.gdn"), "wb") as f:
                 f.write(b"let x = \"\xff\xfe\"\n")
             msgs, data, chunks, cut, bad_at, frames = self.build(case, w)
@@ -568,8 +592,25 @@ class C28:
                 if got != ref:
                     only_l = [g for g in got if g not in ref][:3]
                     only_c = [g for g in ref if g not in got][:3]
-                    v.append(("diagnostics-differ", f"published diagnostics for {os.path.basename(uri)} differ from `garden check --json`: "
-                                                    f"only in LSP {only_l}, only in check {only_c}"))
+                    cls = "diagnostics-differ"
+                    # Attribution: do the two lists agree once the diagnostics that belong to an
+                    # imported file (those `garden check` reports for that file itself) are set aside?
+                    foreign = set()
+                    for imp in re.findall(r'import "\./([A-Za-z0-9_]+\.gdn)"', text):
+                        ip = os.path.join(w.dir, imp)
+                        if os.path.isfile(ip):
+                            pr = subprocess.run([common.BIN, "check", "--json", ip], cwd=w.dir, env=w.env(), capture_output=True, timeout=60)
+                            info["evaluations"] += 1
+                            for ln in pr.stdout.decode("utf-8", errors="replace").splitlines():
+                                try:
+                                    foreign.add(json.loads(ln)["message"])
+                                except Exception:
+                                    pass
+                    if foreign and [g for g in got if g[5] not in foreign] == [g for g in ref if g[5] not in foreign] and \
+                            sorted((g[4], g[5]) for g in got) == sorted((g[4], g[5]) for g in ref):
+                        cls = "diagnostics-differ:imported-file-positions"
+                    v.append((cls, f"published diagnostics for {os.path.basename(uri)} differ from `garden check --json`: "
+                                   f"only in LSP {only_l}, only in check {only_c}"))
                     break
         return v, info
 
